@@ -190,9 +190,11 @@ def main(prop_default, check_event, setup=None):
             mon.evaluations += 1
             try:
                 check_event(mon, ev)
-            except Exception:
-                sys.stderr.write("oracle exception on event: " + line[:2000] + "\n")
-                raise
+            except Exception as e:          # a bug of the oracle, not an observation: the event is skipped and counted
+                sys.stderr.write("oracle exception %r on event: %s\n" % (e, line[:2000]))
+                mon.count("oracle_exception_event_skipped")
+                if len(mon.notes) < 5:
+                    mon.notes.append("oracle exception %r on an event (skipped)" % (e,))
     if not got_meta:
         # the driver died before finishing: never a verdict
         sys.stderr.write("oracle: event stream ended without meta line (driver crashed?)\n")
